@@ -176,16 +176,19 @@ def flatten(vfs, top):
     The three lists are separate because CSS itself fixes their relative order (@import before
     @namespace before everything else); inside each list the order is the cascade order.
     """
-    kept, ns, body = _expand(vfs, top)
+    nested = set()
+    kept, ns, body = _expand(vfs, top, nested, top)
     seen, ns1 = set(), []
     for n in ns:
         if tuple(n) not in seen:
             seen.add(tuple(n))
             ns1.append(n)
-    return {'imports': kept, 'namespaces': ns1, 'body': body}
+    # 'kept_nested': targets of @import rules that have to be kept inside an imported sheet (whether or not an
+    # enclosing @import is kept as a whole later) - only used to name findings, never to judge
+    return {'imports': kept, 'namespaces': ns1, 'body': body, 'kept_nested': sorted(nested)}
 
 
-def _expand(vfs, url):
+def _expand(vfs, url, nested, top):
     sheet = vfs[url]
     kept, ns, body = [], [], []
     for href, _form, media in sheet.get('imports', []):
@@ -193,12 +196,16 @@ def _expand(vfs, url):
         if target not in vfs:
             # unavailable: the @import stays, still pointing at the same absolute location
             kept.append([target, media or 'all'])
+            if url != top:
+                nested.add(target)
             continue
-        k, n, b = _expand(vfs, target)
+        k, n, b = _expand(vfs, target, nested, top)
         if media:
             if k or n or any(r[0] != 'style' for r in b):
                 # wrapping the group in @media would not be valid CSS 2.1 (only rule sets may be nested in @media)
                 kept.append([target, media])
+                if url != top:
+                    nested.add(target)
                 continue
             body.append(['media', media, b])
         else:
